@@ -12,17 +12,17 @@ N0 = '__CPROVER_old(self->next_stringref_)'
 ELIG = '(self->pack_strings_ && vx_len >= spec_strref_min_length(%s))' % N0
 REQ = 'self->next_stringref_ < ((size_t)1 << 60) && vx_registered == 0 && vx_out == VX_OUT_NONE'
 ASG = 'self->next_stringref_, vx_registered, vx_reg_index, vx_out, vx_items'
-TRACK = ('ensures', '[C06] the running index follows the decoder\'s table: a string written literally takes the next index exactly when packing is on and its length reaches the stringref minimum for the current index; a reference takes none',
+TRACK = ('ensures', '[C06][C08] the running index follows the decoder\'s table: a string written literally takes the next index exactly when packing is on and its length reaches the stringref minimum for the current index; a reference takes none',
          '(vx_out == VX_OUT_LITERAL ==> self->next_stringref_ == %s + (%s ? 1 : 0)) && (vx_out == VX_OUT_REF ==> self->next_stringref_ == %s)' % (N0, ELIG, N0))
 def contract():
     return [
         ('requires', REQ), ('assigns', ASG), TRACK,
-        ('ensures', '[C06] a new string is entered in the encoder\'s table exactly when packing is on, it is not yet there and its length reaches the stringref minimum for the running index',
+        ('ensures', '[C06][C08] a new string is entered in the encoder\'s table exactly when packing is on, it is not yet there and its length reaches the stringref minimum for the running index',
          '(vx_registered == 1) == (%s && !vx_find_result)' % ELIG),
-        ('ensures', '[C06] it is entered under the index the decoder will give it (the running index at that moment) and written literally', 'vx_registered == 1 ==> (vx_reg_index == %s && vx_out == VX_OUT_LITERAL)' % N0),
-        ('ensures', '[C06] an eligible string that is already in the table is written as a reference (tag 25 + index), nothing is entered',
+        ('ensures', '[C06][C08] it is entered under the index the decoder will give it (the running index at that moment) and written literally', 'vx_registered == 1 ==> (vx_reg_index == %s && vx_out == VX_OUT_LITERAL)' % N0),
+        ('ensures', '[C06][C08] an eligible string that is already in the table is written as a reference (tag 25 + index), nothing is entered',
          '(%s && vx_find_result) ==> (vx_out == VX_OUT_REF && vx_registered == 0)' % ELIG),
-        ('ensures', '[C06] a string below the minimum length (or with packing off) is written literally and not entered', '!%s ==> (vx_out == VX_OUT_LITERAL && vx_registered == 0)' % ELIG),
+        ('ensures', '[C06][C08] a string below the minimum length (or with packing off) is written literally and not entered', '!%s ==> (vx_out == VX_OUT_LITERAL && vx_registered == 0)' % ELIG),
         ('ensures', '[C06][C08] exactly one encoding per string', 'vx_registered <= 1 && vx_out != VX_OUT_NONE'),
     ]
 LITERAL = [('requires', 'self->next_stringref_ < ((size_t)1 << 60) && vx_out == VX_OUT_NONE'), ('assigns', 'self->next_stringref_, vx_out'), TRACK, ('ensures', '[C06][C08] the string is written literally, once', 'vx_out == VX_OUT_LITERAL')]
@@ -60,7 +60,7 @@ def BYTES(tagged):
 SPECS = [
     FuncSpec('min_length_for_stringref', D, r'size_t min_length_for_stringref\(uint64_t index\)', count=1,
              csig='static size_t min_length_for_stringref(uint64_t index)',
-             contract=[('assigns', ''), ('ensures', '[C06] min_length_for_stringref is the stringref table at every index', '__CPROVER_return_value == spec_strref_min_length(index)')]),
+             contract=[('assigns', ''), ('ensures', '[C06][C08] min_length_for_stringref is the stringref table at every index', '__CPROVER_return_value == spec_strref_min_length(index)')]),
     FuncSpec('write_byte_string', E, r'void write_byte_string\(const byte_string_view& b\)', count=1, csig='void write_byte_string(struct cbor_encoder* self, size_t vx_len)', contract=LITERAL,
              rules=COMMON0 + [(r'b\.size\(\)', 'vx_len', 1, 3), (r'write_type_and_length\(0x40, vx_len\);\s*sink_\.append\(b\.data\(\), vx_len\);', 'vx_out_literal();', 1)]),
     FuncSpec('write_bignum', E, r'void write_bignum\(bigint& n\)', count=1, csig='void write_bignum(struct cbor_encoder* self, size_t vx_len)', contract=LITERAL,
@@ -82,11 +82,11 @@ SITE_CHECKS = [
      'what': 'string payloads are written literally at exactly four places: write_byte_string, write_string (twice), write_bignum - all under contract here'},
 ]
 HARNESSES = [
-    Harness('min_length_for_stringref', 'h_min_length', enforce='min_length_for_stringref', method='LF', props=['C06']),
-    Harness('write_byte_string', 'h_write_byte_string', enforce='write_byte_string', replace=['min_length_for_stringref'], method='LF', props=['C06']),
-    Harness('write_bignum', 'h_write_bignum', enforce='write_bignum', replace=['min_length_for_stringref'], method='LF', props=['C06'],
+    Harness('min_length_for_stringref', 'h_min_length', enforce='min_length_for_stringref', method='LF', props=['C06', 'C08']),
+    Harness('write_byte_string', 'h_write_byte_string', enforce='write_byte_string', replace=['min_length_for_stringref'], method='LF', props=['C06', 'C08']),
+    Harness('write_bignum', 'h_write_bignum', enforce='write_bignum', replace=['min_length_for_stringref'], method='LF', props=['C06', 'C08'],
             note='program slice: the index bookkeeping of write_bignum (its head bytes: unit cbor_head)'),
-    Harness('write_string', 'h_write_string', enforce='write_string', replace=['min_length_for_stringref'], method='LF', props=['C06']),
-    Harness('visit_byte_string', 'h_bytes', enforce='visit_byte_string', replace=['min_length_for_stringref', 'write_byte_string'], method='LF', props=['C06']),
-    Harness('visit_byte_string_tagged', 'h_bytes_tagged', enforce='visit_byte_string_tagged', replace=['min_length_for_stringref', 'write_byte_string'], method='LF', props=['C06']),
+    Harness('write_string', 'h_write_string', enforce='write_string', replace=['min_length_for_stringref'], method='LF', props=['C06', 'C08']),
+    Harness('visit_byte_string', 'h_bytes', enforce='visit_byte_string', replace=['min_length_for_stringref', 'write_byte_string'], method='LF', props=['C06', 'C08']),
+    Harness('visit_byte_string_tagged', 'h_bytes_tagged', enforce='visit_byte_string_tagged', replace=['min_length_for_stringref', 'write_byte_string'], method='LF', props=['C06', 'C08']),
 ]
